@@ -59,3 +59,22 @@ Theorem C05_suites :
           all_suites = true.
 Proof. vm_compute. split; reflexivity. Qed.
 Print Assumptions C05_suites.
+
+(* ---- protocol level (Fdo/Server.v): messages 66..71 exist only inside the tunnel, and a message that fails to
+   decrypt ends the session ---- *)
+From FDO Require Fdo.Server Fdo.ServerFacts.
+
+Theorem C05_only_inside_tunnel : forall st h r st' t eff,
+  ServerFacts.reach st h -> Server.handle st r = (st', Server.RType t, eff) ->
+  (t = 67 \/ t = 69 \/ t = 71 \/ In Server.EModule eff \/ In Server.EReplace eff)%N ->
+  exists id, Server.r_tok r = Server.TSess id /\ Server.r_enc r = true /\ ServerFacts.proved_by h id.
+Proof. exact ServerFacts.to2_tunnel_gate. Qed.
+Print Assumptions C05_only_inside_tunnel.
+
+Theorem C05_failed_message_ends_session : forall st r st' t eff id s,
+  Server.handle st r = (st', Server.RType t, eff) -> Server.lookup st (Server.r_tok r) = Some (id, s) ->
+  Server.is_start (Server.r_type r) = false ->
+  (t = 255%N /\ Server.proto_of (Server.r_type r) <> Server.PNone) \/ Server.is_final t = true ->
+  Server.lookup st' (Server.TSess id) = None.
+Proof. exact ServerFacts.dead_after_final_or_error. Qed.
+Print Assumptions C05_failed_message_ends_session.
